@@ -12,6 +12,7 @@ import TdVerif.Lemmas.C16Resolve
 import TdVerif.Lemmas.C16Tolist
 import TdVerif.Lemmas.C16AssignMain
 import TdVerif.Lemmas.C16ShapeOps
+import TdVerif.Lemmas.C16Permute
 
 namespace TdVerif.Props.C16
 open TdVerif.C16 TdVerif.C16.NT
@@ -173,6 +174,20 @@ theorem squeeze_commutes (r : NT O) (dim : Nat) (hw : wf r = true) (hd : dim < (
     wf (squeeze r dim) = true ∧ shape (squeeze r dim) = (shape r).eraseIdx dim
     ∧ ∀ c, c.length + 1 = (shape r).length → getAt (squeeze r dim) c = getAt r (c.insertIdx dim 0) :=
   squeeze_spec r dim hw hd h1
+
+/-- `shapeop_commutes` (permute): for every permutation `p` of the dims (`p[k]` = source dim shown at output position `k`)
+the result is well formed, has the permuted shape, and output coordinate `c` shows the object the entry had at the
+un-permuted coordinate (`unperm p c` puts `c[k]` at source dim `p[k]`).  The lazy stack moves its stack dim to the
+position where `p` lists it and hands the renumbered remaining dims to every member. -/
+theorem permute_commutes (r : NT O) (p : List Nat) (hw : wf r = true) (hp : IsPerm p (shape r).length) :
+    wf (permute r p) = true ∧ shape (permute r p) = p.map (fun k => (shape r).getD k 0)
+    ∧ ∀ c, c.length = p.length → getAt (permute r p) c = getAt r (unperm p c) :=
+  permute_spec r p hw hp
+
+-- `unperm` really is the inverse placement: `unperm [2,0,1] [a,b,c]` puts `a` at dim 2, `b` at dim 0, `c` at dim 1
+example : unperm [2, 0, 1] [7, 8, 9] = [8, 9, 7] := by decide
+example : permute (.stack [.shared "y" [3, 1], .shared "x" [3, 1]] 1 : NT String) [2, 0, 1]
+    = .stack [.shared "y" [1, 3], .shared "x" [1, 3]] 2 := by rfl
 
 -- non-vacuity: a stack of a shared row and a promoted row, indexed by `[:, 1]`, `[None]`, `[[1,0]]`
 example : wf (.stack [.shared "y" [3], .stack [.shared "x" [], .shared "x" [], .shared "z" []] 0] 0 : NT String) = true := by
